@@ -71,6 +71,13 @@ from vsc.model.solvegroup_swizzler_partsel import SolveGroupSwizzlerPartsel
 from vsc.impl.ctor import glbl_debug, glbl_solvefail_debug
 
 
+class _TrimListsVisitor(ModelVisitor):
+    """Drops the elements by which random-size lists were extended for a call"""
+    
+    def visit_field_scalar_array(self, f):
+        f.trim_to_size()
+        
+
 class Randomizer(RandIF):
     """Implements the core randomization algorithm"""
     
@@ -545,67 +552,78 @@ class Randomizer(RandIF):
             f.set_used_rand(True, 0)
             clear_soft_priority.clear(f)
            
-        if debug > 0: 
-            print("Initial Model:")        
-            for fm in field_model_l:
-                print("  " + ModelPrettyPrinter.print(fm))
+        try:
+            if debug > 0: 
+                print("Initial Model:")        
+                for fm in field_model_l:
+                    print("  " + ModelPrettyPrinter.print(fm))
                 
-        # First, invoke pre_randomize on all elements
-        visited = []
-        for fm in field_model_l:
-            fm.pre_randomize(visited)
-            
-        if constraint_l is None:
-            constraint_l = []
-            
-        for c in constraint_l:
-            clear_soft_priority.clear(c)
-
-        # Collect all variables (pre-array) and establish bounds            
-        bounds_v = VariableBoundVisitor()
-        bounds_v.process(field_model_l, constraint_l, False)
-
-        # TODO: need to handle inline constraints that impact arrays
-        constraints_len = len(constraint_l)
-        for fm in field_model_l:
-            constraint_l.extend(ArrayConstraintBuilder.build(
-                fm, bounds_v.bound_m))
-            # Now, handle dist constraints
-            DistConstraintBuilder.build(randstate, fm)
-            
-        for c in constraint_l:
-            constraint_l.extend(ArrayConstraintBuilder.build(
-                c, bounds_v.bound_m))
-            # Now, handle dist constraints
-            DistConstraintBuilder.build(randstate, c)
-
-        # If we made changes during array remodeling,
-        # re-run bounds checking on the updated model
-#        if len(constraint_l) != constraints_len:
-        bounds_v.process(field_model_l, constraint_l)
-
-        if debug > 0:
-            print("Final Model:")        
+            # First, invoke pre_randomize on all elements
+            visited = []
             for fm in field_model_l:
-                print("  " + ModelPrettyPrinter.print(fm))
+                fm.pre_randomize(visited)
+            
+            if constraint_l is None:
+                constraint_l = []
+            
             for c in constraint_l:
-                print("  " + ModelPrettyPrinter.print(c, show_exp=True))
+                clear_soft_priority.clear(c)
 
-#        if lint > 0:
-#            LintVisitor().lint(
-#                field_model_l,
-#                constraint_l)
+            # Collect all variables (pre-array) and establish bounds            
+            bounds_v = VariableBoundVisitor()
+            bounds_v.process(field_model_l, constraint_l, False)
+
+            # TODO: need to handle inline constraints that impact arrays
+            constraints_len = len(constraint_l)
+            for fm in field_model_l:
+                constraint_l.extend(ArrayConstraintBuilder.build(
+                    fm, bounds_v.bound_m))
+                # Now, handle dist constraints
+                DistConstraintBuilder.build(randstate, fm)
+            
+            for c in constraint_l:
+                constraint_l.extend(ArrayConstraintBuilder.build(
+                    c, bounds_v.bound_m))
+                # Now, handle dist constraints
+                DistConstraintBuilder.build(randstate, c)
+
+            # If we made changes during array remodeling,
+            # re-run bounds checking on the updated model
+    #        if len(constraint_l) != constraints_len:
+            bounds_v.process(field_model_l, constraint_l)
+
+            if debug > 0:
+                print("Final Model:")        
+                for fm in field_model_l:
+                    print("  " + ModelPrettyPrinter.print(fm))
+                for c in constraint_l:
+                    print("  " + ModelPrettyPrinter.print(c, show_exp=True))
+
+    #        if lint > 0:
+    #            LintVisitor().lint(
+    #                field_model_l,
+    #                constraint_l)
             
 
-        r = Randomizer(
-            randstate,
-            solve_info=solve_info,
-            debug=debug, 
-            lint=lint, 
-            solve_fail_debug=solve_fail_debug)
-#        if Randomizer._rng is None:
-#            Randomizer._rng = random.Random(random.randrange(sys.maxsize))
-        ri = RandInfoBuilder.build(field_model_l, constraint_l, Randomizer._rng)
+            r = Randomizer(
+                randstate,
+                solve_info=solve_info,
+                debug=debug, 
+                lint=lint, 
+                solve_fail_debug=solve_fail_debug)
+    #        if Randomizer._rng is None:
+    #            Randomizer._rng = random.Random(random.randrange(sys.maxsize))
+            ri = RandInfoBuilder.build(field_model_l, constraint_l, Randomizer._rng)
+        
+        except:
+            # The preparation failed (an exception from pre_randomize, or while 
+            # evaluating a constant expression): leave the model as it was found, 
+            # as the finally block below does once the solve was started
+            for fm in field_model_l:
+                ConstraintOverrideRollbackVisitor.rollback(fm)
+                fm.set_used_rand(False, 0)
+                fm.accept(_TrimListsVisitor())
+            raise
         
         try:
             r.randomize(ri, bounds_v.bound_m)
